@@ -830,7 +830,23 @@ func (sc c14Scenario) run(r Rng) (fails []Failure, extra [][3]string) {
 				pttWant = append(pttWant, on)
 				sim.say("PTT " + map[bool]string{true: "TRUE", false: "FALSE"}[on])
 			}
-			switch r.Intn(5) {
+			switch r.Intn(7) {
+			case 5:
+				// a damaged frame the decoder refuses and steps over (bad CRC on the serial link, a
+				// data frame too short for its type on the data socket): what follows must still arrive
+				if !sc.tcp {
+					bad := sim.frameCmd("BUSY TRUE")
+					bad[len(bad)-1] ^= 0x40
+					sim.sendCtrl(bad)
+				} else {
+					sim.sendData([]byte{0, 2, 'A', 'R'})
+				}
+			case 6:
+				if !sc.tcp {
+					bad := sim.frameData("ARQ", []byte("damaged in the serial cable"))
+					bad[len(bad)-2] ^= 0x01
+					sim.sendCtrl(bad)
+				}
 			case 0:
 				sim.sendData(sim.frameData("IDF", []byte(" "+sc.peer+":[JP20QE] ")))
 			case 1:
